@@ -38,8 +38,11 @@ def gen_session(rng, tier, i):
         tb.append(model.clone(rng.choice(tb)))          # repeated identical sentence
         tb[-1]["sid"] = tb[-2]["sid"] + 1
     source = rng.choice(["api", "api", "export", "tigerxml", "discobrackets"])
+    if source == "api" and rng.random() < 0.15:
+        # a tree that is a single token: one lexicon occurrence, no rule
+        tb.insert(rng.randrange(len(tb) + 1), model.token_tree(rng, k, sid=900))
     trans = []
-    if rng.random() < 0.3:
+    if rng.random() < 0.3 and not any(isinstance(x["root"], int) for x in tb):
         # in-process transformations between reading and extraction: the grammar must be
         # that of the tree actually handed to extract (judged on its raw dump)
         trans = [list(x) for x in rng.choice(PIPELINES)]
